@@ -73,6 +73,14 @@ def run(chk, repo):
     chk.doc("R08.3", "one slot per visible variable (shared with C08)")
     c08.layout(chk, repo)
     c08.dedup(chk, repo)
+    # ... inside the hash map's value (always the full 8 bytes), and inside
+    # the packet guard of a fast sync group (the positions allocate()
+    # reports are the datagrams')
+    from . import c09, c18
+    chk.doc("R09.1", "hash-map cells are 8 bytes wide (shared with C09)")
+    c09.cells(chk, repo)
+    chk.doc("R18.6", "allocation decoded independently (shared with C18)")
+    c18.allocation_semantic(chk, repo)
     sh.watermark_rules(chk, repo, "R05.7")
     sh.member_symmetry(chk, repo, "R05.8")
     sh.guard_strictness(chk, repo, "R05.9")
@@ -712,3 +720,4 @@ def r6(chk, repo):
 EXPLANATION += (" " + 'Added during the build (DESIGN.md 4.31, second table): (R05.2) the save_registers lists around every helper call, evaluated for every destination, cover r0-r5 except the result register; (R05.10) the program name handed to BPF_PROG_LOAD is shorter than the name field (prog_load and EBPF.load by abstract execution).')
 EXPLANATION += (' Added after wave 8: (R05.4) a get_address(N, ...) call site that ignores the register handed back relies on MemoryMap.__getitem__ giving bare registers a computed address (8 rows by abstract execution); the byte-swap re-extension table of C01 is shared (no non-positive shift amount).')
 EXPLANATION += (" Added after wave 10: (R05.2) get_free_register() in a calculate() is asked for the caller's dst (or None), never for a register picked by the method.")
+EXPLANATION += (' Added after the last wave: R09.1 (8-byte hash-map cells) and R18.6 (allocation decoded independently) are shared.')
